@@ -72,7 +72,7 @@ FA_NOTE = COMMON_NOTE + ("Shared FunctionAnalyser model coq/model/FuncAn.v (+Con
    "harness/fa_lib.py wraps FunctionAnalyser.analyse from outside; harness/emit.py converts ast to Coq terms.")
 CHECKS["C01"] = dict(
    technique="Coq: refutation witnesses per finding class (vm_compute on the faithful model) + monotonicity of all visitors by tree induction + generic-visit equation; spec checker `occs`/`missed` judges rattr's IR on an exhaustive-within-bound position x kind x context catalogue; model/rattr differential correspondence",
-   text=("The full statement (every access of a body is reported) is REFUTED: C01_refuted / C01_refuted_each_class give one kernel-checked witness per finding class (slice, inner-call arguments, getattr-family arguments, "
+   text=("The full statement (every access of a body is reported) is REFUTED: C01_refuted / C01_refuted_each_class give one kernel-checked witness per finding class (inner-call arguments, getattr-family arguments, "
          "nested-def defaults, deep unnameable root, namedtuple declaration, class-instantiation annotation), each replayed on rattr and listed in KNOWN_FINDINGS.json. Proved for every node, state and outcome: no visitor ever removes "
          "from the IR (C01_visitors_only_add, tree induction over all node classes) and a node class without dedicated visitor visits all its children (C01_generic_visit_descends_everywhere). The claim 'every access outside the "
          "finding-class positions is reported' is PROVED for load expressions of any depth built from names, attribute / subscript / starred chains, every node class without a dedicated visitor, tuples, lists, sets, dicts (C01_call_free_loads_are_complete) and additionally calls - with positional, starred and keyword arguments - whose callee no custom analyser claims in the current scope chain (C01_loads_with_calls_are_complete: the visit ends normally, leaves the scope chain alone, reports every get and every call `occs false` lists) and beyond that fragment is decided by the Coq specification `occs false` evaluated on rattr's own IR over the generated catalogue (every nameable kind x every statement/expression position x load/store/delete, "
